@@ -54,7 +54,8 @@ def run(ctx):
     _RR2.limit_provenance(ctx, "R06.a")
     from . import r_word as _RW2
     _RW2.no_shadowed_defaults(ctx, "R03.o")
-    return info("R03.o: no impl overrides a provided method of the crate's traits (Word::len / dist / is_function, LimitSort). R06.a: the bounded selection keeps `limit` items at full width (a store no larger than the limit loses no hit to the cut). R03.n: the word-to-word alternative of text_match calls word_match on every path (no pre-test in front of the gates). R03.m: a hit with one matched word for a one-word query passes hit_matches whatever the match looks like (abstract run). R03.l: add_record really adds the record to the addressed store on every call (the registry API is not exercised by the repository's tests). R03.k: a hit carries the whole title of its record (no truncation) and the stem of a word is computed from exactly the word's characters. "
+    RK.sibling_agreement(ctx, "R03.p", "R03.p", stages_too=False, only=("query",))
+    return info("R03.p: the query tokeniser splits and strips on the same classes as the record tokeniser. R03.o: no impl overrides a provided method of the crate's traits (Word::len / dist / is_function, LimitSort). R06.a: the bounded selection keeps `limit` items at full width (a store no larger than the limit loses no hit to the cut). R03.n: the word-to-word alternative of text_match calls word_match on every path (no pre-test in front of the gates). R03.m: a hit with one matched word for a one-word query passes hit_matches whatever the match looks like (abstract run). R03.l: add_record really adds the record to the addressed store on every call (the registry API is not exercised by the repository's tests). R03.k: a hit carries the whole title of its record (no truncation) and the stem of a word is computed from exactly the word's characters. "
                 "Necessary constants/shapes for prefix search: the Jaccard gate accepts distance 1/2 (first keystroke), "
                 "the length and DL gates accept distance 0, the gram iterator starts at width 1 and index writer and "
                 "reader share one gram generator, the candidate cap is at least the limit, and for an unfinished query "
